@@ -15,7 +15,8 @@ def build_mem(aw=1, dw=2, pre=(), style='plain'):
     wa = pyrtl.Input(aw, 'wa')
     wd = pyrtl.Input(dw, 'wd')
     we = pyrtl.Input(1, 'we')
-    m = pyrtl.MemBlock(bitwidth=dw, addrwidth=aw, name='m', asynchronous=True, max_read_ports=None)
+    m = pyrtl.MemBlock(bitwidth=dw, addrwidth=aw, name='m', asynchronous=True, max_read_ports=None,
+                       max_write_ports=None)
     o1 = pyrtl.Output(dw, 'o1')
     o2 = pyrtl.Output(dw, 'o2')
     o1 <<= m[ra]
@@ -36,6 +37,11 @@ def build_mem(aw=1, dw=2, pre=(), style='plain'):
                 m[wa] |= wd                                       # plain write in branch 1
             with c2:
                 m[rb] |= pyrtl.MemBlock.EnabledWrite(~wd, we)      # enabled write in branch 2
+    elif style == 'constenable':
+        # a port whose enable is the constant 0 (never writes), one whose enable is the constant 1,
+        # next to an ordinary enabled port
+        m[wa] <<= pyrtl.MemBlock.EnabledWrite(wd, we)
+        m[ra] <<= pyrtl.MemBlock.EnabledWrite(~wd, pyrtl.Const(0, bitwidth=1))
     else:
         raise ValueError(style)
     block = pyrtl.working_block()
@@ -54,11 +60,19 @@ def array_walk(simname='Simulation', aw=1, dw=2, pre=(), seed=0, max_steps=6000,
     rnd = random.Random(seed)
     block, mem = build_mem(aw, dw, pre, style)
     nwords = 2 ** aw
-    small = nwords * dw <= 4 and style == 'plain'
+    big = aw > 16
+    small = (not big) and nwords * dw <= 4 and style == 'plain'
     pend = (0, 0, 0)          # regports: the registered (address, data, enable), reset to 0
     mask = (1 << dw) - 1
     init = {int(k): v for k, v in (init or {}).items()}
-    arr = [init.get(a, 0) for a in range(nwords)]
+    big = aw > 16
+    if big:
+        class _Arr(dict):
+            def __missing__(self, k):
+                return 0
+        arr = _Arr(init)
+    else:
+        arr = [init.get(a, 0) for a in range(nwords)]
     kw = dict(block=block, memory_value_map={mem: dict(init)} if init else {})
     tracer = pyrtl.SimulationTrace(block=block)
     sim = getattr(pyrtl, simname)(tracer=tracer, **kw)
@@ -83,7 +97,7 @@ def array_walk(simname='Simulation', aw=1, dw=2, pre=(), seed=0, max_steps=6000,
         sim.step(dict(op))
         exp1, exp2 = arr[op['ra']], arr[op['rb']]      # reads see strictly earlier writes
         got1, got2 = sim.inspect('o1'), sim.inspect('o2')
-        if style == 'plain':
+        if style in ('plain', 'constenable'):
             if op['we']:
                 arr[op['wa']] = op['wd']
         elif style == 'regports':
@@ -99,7 +113,23 @@ def array_walk(simname='Simulation', aw=1, dw=2, pre=(), seed=0, max_steps=6000,
         if (got1, got2) != (exp1, exp2):
             return dict(failed=True, observed=dict(step=steps - 1, o1=got1, o2=got2, op=op),
                         expected=dict(o1=exp1, o2=exp2), history_len=len(hist))
-        cont = dict(sim.inspect_mem(mem)) if not pre or 'synth' not in pre[0] else None
+        cont = None
+        if big:
+            # never enumerate a 2**33-word memory: look the touched addresses up one by one
+            im = sim.inspect_mem(mem)
+
+            def word(a):
+                try:
+                    return im[a]
+                except KeyError:
+                    return 0
+            keys = set(arr) | set(addr_pool or ())
+            bad = sorted(a for a in keys if word(a) != arr[a])
+            if bad:
+                return dict(failed=True, observed=dict(step=steps - 1, address=hex(bad[0]), word=word(bad[0]), op=op),
+                            expected=dict(word=arr[bad[0]]))
+        elif not pre or 'synth' not in pre[0]:
+            cont = dict(sim.inspect_mem(mem))
         if cont is not None:
             got = [cont.get(a, 0) for a in range(nwords)]
             if got != arr:
